@@ -8,6 +8,8 @@ package main
 
 import (
 	"fmt"
+	"regexp"
+	"sort"
 	"strings"
 )
 
@@ -523,4 +525,122 @@ func usedInLoop(s *Summary, l *LoopSum, name string, j int) bool {
 		}
 	}
 	return false
+}
+
+// canonicalLoopOrder renumbers sibling loops by what they iterate over and when they are entered instead of by block
+// order, so that swapping two branches (or two independent loops) does not change the numbering.
+var loopNameRe = regexp.MustCompile(`^L(\d+)(\..*)?$`)
+
+func canonicalLoopOrder(s *Summary) {
+	n := len(s.Loops)
+	if n < 2 {
+		return
+	}
+	for i, l := range s.Loops {
+		if l.ID != i {
+			return // numbering is not positional: leave it alone
+		}
+	}
+	sig := make([]string, n)
+	for i, l := range s.Loops {
+		own := regexp.MustCompile(fmt.Sprintf(`\bL%d\b`, l.ID))
+		sig[i] = own.ReplaceAllString(printTerm(l.Entry)+"|"+printTerm(l.Cond)+"|"+printTerm(l.Over)+"|"+fmt.Sprint(len(l.Vars), len(l.Exits)), "L@")
+	}
+	children := map[int][]int{}
+	for i, l := range s.Loops {
+		children[l.Parent] = append(children[l.Parent], i)
+	}
+	var order []int
+	var visit func(parent int)
+	visit = func(parent int) {
+		kids := children[parent]
+		sort.SliceStable(kids, func(a, b int) bool { return sig[kids[a]] < sig[kids[b]] })
+		for _, k := range kids {
+			order = append(order, k)
+			visit(k)
+		}
+	}
+	visit(-1)
+	if len(order) != n {
+		return
+	}
+	newID := make(map[int]int, n)
+	identity := true
+	for pos, k := range order {
+		newID[k] = pos
+		if pos != k {
+			identity = false
+		}
+	}
+	if identity {
+		return
+	}
+	memo := map[*Term]*Term{}
+	var ren func(t *Term) *Term
+	ren = func(t *Term) *Term {
+		if t == nil {
+			return nil
+		}
+		if r, ok := memo[t]; ok {
+			return r
+		}
+		c := *t
+		changed := false
+		if m := loopNameRe.FindStringSubmatch(t.Val); m != nil && (t.Op == "sym" || t.Op == "next" || t.Op == "seq") {
+			var id int
+			fmt.Sscanf(m[1], "%d", &id)
+			if nid, ok := newID[id]; ok && nid != id {
+				c.Val = fmt.Sprintf("L%d%s", nid, m[2])
+				changed = true
+			}
+		}
+		if len(t.Args) > 0 {
+			args := make([]*Term, len(t.Args))
+			for i, a := range t.Args {
+				args[i] = ren(a)
+				if args[i] != a {
+					changed = true
+				}
+			}
+			c.Args = args
+		}
+		if !changed {
+			memo[t] = t
+			return t
+		}
+		memo[t] = &c
+		return &c
+	}
+	for i := range s.Results {
+		s.Results[i] = ren(s.Results[i])
+	}
+	for i := range s.Effects {
+		e := &s.Effects[i]
+		e.Guard = ren(e.Guard)
+		for j := range e.Args {
+			e.Args[j] = ren(e.Args[j])
+		}
+		if nid, ok := newID[e.Region]; ok {
+			e.Region = nid
+		}
+	}
+	loops := make([]*LoopSum, n)
+	for i, l := range s.Loops {
+		l.Entry, l.Cond, l.Over = ren(l.Entry), ren(l.Cond), ren(l.Over)
+		for j := range l.Exits {
+			l.Exits[j] = ren(l.Exits[j])
+		}
+		for j := range l.Vars {
+			l.Vars[j].Init, l.Vars[j].Step = ren(l.Vars[j].Init), ren(l.Vars[j].Step)
+		}
+		l.ID = newID[i]
+		if l.Parent >= 0 {
+			l.Parent = newID[l.Parent]
+		}
+		loops[l.ID] = l
+	}
+	s.Loops = loops
+	for k, v := range s.LocalInit {
+		s.LocalInit[k] = ren(v)
+	}
 }
